@@ -206,7 +206,7 @@ pub async fn control_handler(w: Rc<World>, conn: usize, gated: bool, msg: Contro
     }
 }
 
-async fn handshake_handler(w: Rc<World>, plan: Rc<Plan>, h: v5::Handshake) -> Result<v5::HandshakeAck<St>, AppErr> {
+pub async fn handshake_handler(w: Rc<World>, plan: Rc<Plan>, h: v5::Handshake) -> Result<v5::HandshakeAck<St>, AppErr> {
     let conn = conn_of_client_id(&h.packet().client_id);
     let cfg = &plan.cfg;
     let c = h.packet();
@@ -280,8 +280,11 @@ pub fn qos(q: u8) -> codec::QoS {
 }
 
 /// Build the v5 server from the plan and serve `plan.conns` connections over simulated streams.
-pub async fn run_server(w: Rc<World>, plan: Rc<Plan>) {
-    let cfg: SharedCfg = shared_cfg(&plan.cfg);
+/// Builds handshake / control / protocol / publish factories of the v5 server from the plan.
+macro_rules! v5_parts {
+    ($w:expr, $plan:expr) => {{
+        let w: Rc<World> = $w;
+        let plan: Rc<Plan> = $plan;
 
     let (w1, p1) = (w.clone(), plan.clone());
     let hs = fn_factory_with_config(move |_: SharedCfg| {
@@ -320,6 +323,15 @@ pub async fn run_server(w: Rc<World>, plan: Rc<Plan>) {
         }
     });
 
+
+        (hs, ctl, proto, publish)
+    }};
+}
+pub(crate) use v5_parts;
+
+pub async fn run_server(w: Rc<World>, plan: Rc<Plan>) {
+    let cfg: SharedCfg = shared_cfg(&plan.cfg);
+    let (hs, ctl, proto, publish) = v5_parts!(w.clone(), plan.clone());
     if plan.cfg.use_router {
         // resources as in the client role: "a", "b/{x}", "t/{id}"; everything else goes to `publish`
         let (wa, wb, wt) = (w.clone(), w.clone(), w.clone());
@@ -353,7 +365,7 @@ pub async fn run_server(w: Rc<World>, plan: Rc<Plan>) {
     }
 }
 
-async fn serve_all<F>(factory: F, w: Rc<World>, plan: Rc<Plan>, cfg: SharedCfg)
+pub async fn serve_all<F>(factory: F, w: Rc<World>, plan: Rc<Plan>, cfg: SharedCfg)
 where
     F: ServiceFactory<IoBoxed, SharedCfg, Response = ()>,
     F::Error: std::fmt::Debug,
